@@ -431,6 +431,66 @@ Section CasProofs.
     split; [apply (inv_times HI)|apply (inv_now HI)].
   Qed.
 
+  (* ---------------- operations restricted by a predicate ---------------- *)
+  Lemma successes_in (d : list (Op * fin Out)) op o :
+    In (op, o) (successes d) -> In (op, FCommit o) d.
+  Proof.
+    unfold successes. rewrite in_flat_map. intros [[op' f] [Hin Hx]]. simpl in Hx.
+    destruct f as [o'|o'|]; simpl in Hx; try contradiction.
+    destruct Hx as [Heq|[]]. inversion Heq; subst. exact Hin.
+  Qed.
+
+  (* every commit in the log is an operation of its client's program *)
+  Theorem cas_log_ops_in_progs (sched : list label) :
+    let s := runD sched (init_sys v0 now0 progs) in
+    Forall (fun k => In (k_op k) (progs (k_client k))) (s_log s).
+  Proof.
+    intros s. destruct (cas_linearizable sched) as [_ [_ [H3 [H4 _]]]]. fold s in H3, H4.
+    apply Forall_forall. intros k Hk.
+    assert (Hb : In k (by_client (k_client k) (s_log s))).
+    { unfold by_client. apply filter_In. split; [exact Hk|apply Nat.eqb_refl]. }
+    apply (in_map op_out) in Hb. rewrite H3 in Hb. unfold op_out in Hb.
+    apply successes_in in Hb. apply (in_map fst) in Hb. simpl in Hb.
+    rewrite <- (H4 (k_client k)). apply in_or_app. left. exact Hb.
+  Qed.
+
+  Lemma chain_invariant_ops (P : Op -> Prop) (I : V -> Prop) :
+    (forall now op prev v' o,
+        P op -> match prev with Some v => I v | None => True end ->
+        decide now op prev = Commit v' o -> I v') ->
+    forall (log : list commitT) prev,
+      Forall (fun k => P (k_op k)) log ->
+      match prev with Some v => I v | None => True end ->
+      chain decide prev log ->
+      Forall (fun k => I (k_val k)) log /\
+      match last_val prev log with Some v => I v | None => True end.
+  Proof.
+    intros Hpres. induction log as [|k r IH]; intros prev HP Hp Hc.
+    - split; [constructor|exact Hp].
+    - destruct Hc as [_ [Hd Hc]]. inversion HP as [|? ? HPk HPr]; subst.
+      pose proof (Hpres _ _ _ _ _ HPk Hp Hd) as Hk.
+      destruct (IH (Some (k_val k)) HPr Hk Hc) as [A B]. split; [constructor; assumption|].
+      exact B.
+  Qed.
+
+  (* cas_invariant when only the operations that actually occur in the
+     programs are known to preserve I *)
+  Theorem cas_invariant_ops (P : Op -> Prop) (I : V -> Prop) (sched : list label) :
+    (forall c op, In op (progs c) -> P op) ->
+    match v0 with Some v => I v | None => True end ->
+    (forall now op prev v' o,
+        P op -> match prev with Some v => I v | None => True end ->
+        decide now op prev = Commit v' o -> I v') ->
+    let s := runD sched (init_sys v0 now0 progs) in
+    Forall (fun k => I (k_val k)) (s_log s) /\
+    match cur_val s with Some v => I v | None => True end.
+  Proof.
+    intros HP H0 Hpres s. destruct (cas_linearizable sched) as [Hc [Hl _]]. fold s in Hc, Hl.
+    rewrite Hl. apply (chain_invariant_ops P I Hpres); try assumption.
+    pose proof (cas_log_ops_in_progs sched) as Hin. fold s in Hin.
+    eapply Forall_impl; [|exact Hin]. intros k Hk. exact (HP _ _ Hk).
+  Qed.
+
   (* a generic way to carry further (instance-specific) state invariants *)
   Lemma run_invariant (P : sysT -> Prop) :
     P (init_sys v0 now0 progs) ->
@@ -451,6 +511,9 @@ Arguments cas_invariant {V Op Out} decide extra_gets max_retries v0 now0 progs I
 Arguments cas_create_once {V Op Out} decide extra_gets max_retries v0 now0 progs sched.
 Arguments cas_failures_write_nothing {V Op Out} decide extra_gets max_retries v0 now0 progs sched c.
 Arguments cas_times_ordered {V Op Out} decide extra_gets max_retries v0 now0 progs sched.
+Arguments cas_log_ops_in_progs {V Op Out} decide extra_gets max_retries v0 now0 progs sched.
+Arguments cas_invariant_ops {V Op Out} decide extra_gets max_retries v0 now0 progs P I sched.
+Arguments chain_invariant_ops {V Op Out} decide P I.
 Arguments run_invariant {V Op Out} decide extra_gets max_retries v0 now0 progs P.
 Arguments chain_seq_exec {V Op Out} decide log prev.
 Arguments chain_invariant {V Op Out} decide I.
